@@ -241,7 +241,7 @@ def nspos_model(work, tier):
     """the network-simplex positioner (auxiliary graph + weighted network simplex + hbalance) on every small layered graph"""
     k = 4 if tier == "quick" else 6
     return mech_model(work, "NSPosition", "Position.tla",
-                      ("SPECIFICATION Spec\nCONSTANTS Layers = 3 MaxPer = 2 MaxNodes = %d Widths = {0, 3, 6} MaxIn = 2 NS = 1\n"
+                      ("SPECIFICATION Spec\nCONSTANTS Layers = 3 MaxPer = 2 MaxNodes = %d Widths = {0, 3, 6} MaxIn = 2 NS = 1 Tall = FALSE LS = 1\n"
                        "INVARIANTS NSPosFinishes NSPosTreeRight NSPosFeasible NSPosBalanceKeepsObjective NSPosSeparates NSPosSeparatesExactly NSPosLeftmostZero NSPosStraightensChains\nCHECK_DEADLOCK FALSE\n") % k,
                       "Position.tla + NSPositionOps: the network-simplex positioner on every proper layered graph with 3 layers, <= %d nodes, widths {0,3,6}: auxiliary graph, weighted network simplex, hbalance (NSPosFinishes, NSPosTreeRight, NSPosFeasible, NSPosBalanceKeepsObjective, NSPosSeparates, NSPosSeparatesExactly, NSPosLeftmostZero, NSPosStraightensChains)" % k,
                       workers=15)
@@ -251,16 +251,26 @@ def bk_model(work, tier):
     """the Brandes-Koepf positioner (BKOps) on every small layered graph with 4 layers (markConflicts needs 4)"""
     k = 5 if tier == "quick" else 6
     return mech_model(work, "BK", "Position.tla",
-                      ("SPECIFICATION Spec\nCONSTANTS Layers = 4 MaxPer = 2 MaxNodes = %d Widths = {0, 3} MaxIn = 2 NS = 1\n"
+                      ("SPECIFICATION Spec\nCONSTANTS Layers = 4 MaxPer = 2 MaxNodes = %d Widths = {0, 3} MaxIn = 2 NS = 1 Tall = FALSE LS = 1\n"
                        "INVARIANTS BKBlocksAreChains BKEveryNodeInOneBlock BKAlignmentsDoNotCross BKUniformSeparated BKNonNegative BKNoStartInsideNeighbour\nCHECK_DEADLOCK FALSE\n") % k,
                       "Position.tla + BKOps: the Brandes-Koepf positioner (conflict marking, 4 x vertical alignment + compaction, balancing, verification, final adjustment) on every proper layered graph with 4 layers, <= %d nodes, widths {0,3} (BKBlocksAreChains, BKEveryNodeInOneBlock, BKAlignmentsDoNotCross, BKUniformSeparated, BKNonNegative, BKNoStartInsideNeighbour)" % k,
                       workers=15)
 
 
+def spline_corridor_model(work, tier):
+    """buildRects of the spline router on every small positioned graph: well-formed corridors in the non-degenerate class"""
+    per, k = (2, 5) if tier == "quick" else (3, 5)
+    return mech_model(work, "SplineCorridor", "Position.tla",
+                      ("SPECIFICATION Spec\nCONSTANTS Layers = 3 MaxPer = %d MaxNodes = %d Widths = {0, 3, 6} MaxIn = 2 NS = 1 Tall = TRUE LS = 2\n"
+                       "INVARIANTS SplineCorridorsOK\nCHECK_DEADLOCK FALSE\n") % (per, k),
+                      "Position.tla + RouteOps!BuildRects6: the spline router's corridors on every proper layered graph with 3 layers, <= %d per layer, <= %d nodes, widths {0,3,6}, heights by width, positioned by VAlign / PackRight / SinkColoring: CorridorOps!WellFormed and end points inside when sizes and spacings are positive, bands uniform and helper nodes not adjacent (SplineCorridorsOK)" % (per, k),
+                      workers=12)
+
+
 def position_model(work, tier):
     k = 4 if tier == "quick" else 5
     return mech_model(work, "Position", "Position.tla",
-                      ("SPECIFICATION Spec\nCONSTANTS Layers = 3 MaxPer = 2 MaxNodes = %d Widths = {0, 2, 6} MaxIn = 2 NS = 1\n"
+                      ("SPECIFICATION Spec\nCONSTANTS Layers = 3 MaxPer = 2 MaxNodes = %d Widths = {0, 2, 6} MaxIn = 2 NS = 1 Tall = FALSE LS = 1\n"
                        "INVARIANTS SinkTerminates SinkSeparates SinkKeepsOrder ExactSpacing VAlignCentres PackRightAligns VAlignLeftmostZero\nCHECK_DEADLOCK FALSE\n") % k,
                       "Position.tla: SinkColoring / VAlign / PackRight on every proper layered graph with 3 layers, <= %d nodes, widths {0,2,6} (SinkTerminates, SinkSeparates, SinkKeepsOrder, ExactSpacing, VAlignCentres, PackRightAligns)" % k,
                       workers=4)
